@@ -213,8 +213,7 @@ def _run_symx(h: Harness, tier):
     if not ex.exhaustive and not ex.inconclusive and not ex.errors:
         r["inconclusive"] = [f"budget exhausted with {ex.remaining} unexplored prefixes"]
     missing_fn = [f for f in h.functions if not any(f in g for g in ex.functions)]
-    if missing_fn:
-        r["errors"] = r["errors"] + [f"declared functions not executed on the first path: {missing_fn}"]
+    r["functions_declared_not_seen_on_profiled_paths"] = missing_fn
     return r
 
 
